@@ -19,6 +19,7 @@ package sourceaddrs
 //@ func joinSubPath -> (r, err)
 //@   pure
 //@   sweep
+//@   replay joinSub: sub=subPath, rel=rel
 //@   ensures C11.join.value: err == nil ==> r == ite(Join(subPath, rel) == ".", "", Join(subPath, rel))
 //@   ensures C11.join.norm: err == nil ==> normSub(r)
 //@   ensures C11.join.fails: (err != nil) == (Join(subPath, rel) != "." && (Join(subPath, rel) == "" || isAbs(Join(subPath, rel)) || climbs(Join(subPath, rel))))
